@@ -52,6 +52,32 @@ Spec == Init /\ [][Next]_cfg
 Row(c) == [req |-> c.req, ndebug |-> c.ndebug, cpp |-> c.cpp, allowed |-> Allowed(c), documented |-> Documented(c), header |-> Header(c)]
 EmitTable == PrintT("@M@" \o ToJson(Row(cfg)))
 
+(* ---- round 3: translation units compiled WITHOUT exception support (-fno-exceptions; the header then defines          *)
+(* TCB_SPAN_NO_EXCEPTIONS).  Nothing can be thrown, so "rejected" can only mean: the call does not return (terminate).      *)
+(* NxAllowed: a unit that asks for TERMINATE has contract checking enabled, so the statement demands the rejection           *)
+(* (verdict); a unit that asks for THROW cannot have what it asks for: terminating, or not compiling at all, are the         *)
+(* answers that produce no view outside the parent (advisory); NONE gives no checking; nothing / several: every mode.        *)
+(* at() "throws for every index >= size()": without exceptions the only answer that does not hand out a reference outside   *)
+(* the view is not to return, whatever the checking mode (advisory: the statement's quantifier has no such build).           *)
+NxOutcomes == {"unchecked", "terminate", "does-not-compile"}
+NxAllowed(c) == IF c.req = {"TERMINATE"} THEN {"terminate"}
+                ELSE IF c.req = {"THROW"} THEN {"terminate", "does-not-compile"}
+                ELSE IF c.req = {"NONE"} THEN {"unchecked"}
+                ELSE NxOutcomes
+NxAtAllowed(c) == IF "THROW" \in c.req THEN {"terminate", "does-not-compile"} ELSE {"terminate"}
+NxVerdict(c) == c.req = {"TERMINATE"}
+(* L2: the header.  With THROW among the defined macros the unit contains `throw` and std::logic_error without <stdexcept>:   *)
+(* it does not compile.  Otherwise the cascade is the one above; at() has no check of its own left and forwards to            *)
+(* operator[], which checks unless NONE is defined.                                                                            *)
+NxHeader(c) == IF "THROW" \in Defined(c) THEN "does-not-compile" ELSE Header(c)
+NxAtHeader(c) == NxHeader(c)
+NxRow(c) == [req |-> c.req, ndebug |-> c.ndebug, cpp |-> c.cpp, allowed |-> NxAllowed(c), at |-> NxAtAllowed(c), verdict |-> NxVerdict(c),
+             header |-> NxHeader(c), header_at |-> NxAtHeader(c)]
+EmitNx == PrintT("@N@" \o ToJson(NxRow(cfg)))
+(* the header satisfies the verdict rows; where it leaves the advisory rows is a finding the runner reports *)
+NxHeaderRefinesVerdict == NxVerdict(cfg) => NxHeader(cfg) \in NxAllowed(cfg)
+NxExplicitIndependent == cfg.req # {} => \A nd \in BOOLEAN, cp \in {14, 17} : NxHeader([cfg EXCEPT !.ndebug = nd, !.cpp = cp]) = NxHeader(cfg)
+
 (* ---- checked by TLC on the 32 configurations *)
 HeaderRefinesL1 == Header(cfg) \in Allowed(cfg)
 HeaderAsDocumented == Header(cfg) \in Documented(cfg)
